@@ -5,12 +5,22 @@ H = 'c06_navigation.c'
 
 def jobs(tier):
     q = [
-        dict(name='n3e2-k3', harness=H, entry='main_c06', defines=dict(NN=3, NE=2, NS=1, TP_HI=0, SP_HI=1, KOPS=3),
-             timeout=900, require_tags={'end': 1, 'null': 1, 'nonnull': 1}),
+        dict(name='all-tables-k2', harness=H, entry='main_c06',
+             defines=dict(NN=3, NE=2, NS=1, TP_HI=0, SP_LO=1, SP_HI=1, OPTS_LO=1, KOPS=2, FIRST_OP_MOVES=1),
+             timeout=600, require_tags={'end': 1, 'null': 1, 'nonnull': 1}),
+        dict(name='fixed-table-k3', harness=H, entry='main_c06',
+             defines=dict(NN=4, NE=4, NS=1, FIXED_TABLE=1, OPTS_LO=1, KOPS=3),
+             timeout=600, require_tags={'end': 1, 'null': 1, 'nonnull': 1}),
     ]
     if tier == 'quick':
         return q
     return q + [
+        dict(name='fixed-table-k4', harness=H, entry='main_c06',
+             defines=dict(NN=4, NE=4, NS=1, FIXED_TABLE=1, OPTS_LO=1, KOPS=4),
+             timeout=1500, require_tags={'end': 1, 'null': 1, 'nonnull': 1}),
+        dict(name='all-tables-k3', harness=H, entry='main_c06',
+             defines=dict(NN=3, NE=2, NS=1, TP_HI=0, SP_LO=1, SP_HI=1, OPTS_LO=1, KOPS=3), timeout=3000, allow_incomplete=True,
+             require_tags={'end': 1, 'null': 1, 'nonnull': 1}),
         dict(name='n3e2-k4', harness=H, entry='main_c06', defines=dict(NN=3, NE=2, NS=1, TP_HI=0, SP_HI=0, KOPS=4),
              timeout=3000, allow_incomplete=True, require_tags={'end': 1, 'null': 1, 'nonnull': 1}),
         dict(name='n4e3-k3', harness=H, entry='main_c06', defines=dict(NN=4, NE=3, NS=1, TP_HI=0, SP_HI=0, KOPS=3),
@@ -19,11 +29,12 @@ def jobs(tier):
 
 
 BOUNDS = {
-    'quick': 'all 343 sequences of 3 operations from {first,last,next,prev,seek(x),seek_index(i),clear} followed by copy, x '
-             'a solver variable in [0,L), on every valid 3-node 0..2-edge tree sequence class with one site (edge '
-             'coordinates symbolic), sample lists on/off, one tracked sample; compared field by field with a fresh tree '
+    'quick': 'all 28 non-redundant sequences of 2 operations from {first,last,next,prev,seek(x),seek_index(i),clear} followed by copy, x '
+             'a solver variable in [0,L), on every valid 3-node 2-edge tree sequence class with one site (edge '
+             'coordinates symbolic), and all 343 sequences of 3 operations on one fixed 4-node 4-edge 5-tree sequence '
+             '(internal sample, gap, empty last tree, site position and seek positions symbolic); sample lists on, all three nodes samples (so the oldest is an internal sample), one tracked sample; compared field by field with a fresh tree '
              'moved by seek_index and with one moved by first/next',
-    'thorough': 'plus sequences of 4 operations and 4-node 3-edge tables (time-boxed)',
+    'thorough': 'plus all 2401 sequences of 4 operations on the fixed table, sequences of 3 and 4 operations on all 3-node 2-edge classes and 3 operations on 4-node 3-edge tables (time-boxed)',
 }
 OUTSIDE = ['Python negative-index handling in Tree.seek_index', 'histories longer than the bound',
            'node-time profiles other than the first']
